@@ -108,18 +108,25 @@ fn spot(ex: ExchangeId, name: &str, base: &str, quote: &str) -> Instrument<Excha
 
 pub fn layout() -> Arc<Layout> {
     // definition order deliberately differs from the index order (indices are sorted by exchange)
-    let indexed = IndexedInstruments::new(vec![
+    let defs = vec![
         spot(ExchangeId::Kraken, "btc_usdt", "btc", "usdt"),
         spot(ExchangeId::BinanceSpot, "btc_usdt", "btc", "usdt"),
         spot(ExchangeId::Coinbase, "btc_usd", "btc", "usd"),
         spot(ExchangeId::Kraken, "eth_usdt", "eth", "usdt"),
         spot(ExchangeId::BinanceSpot, "eth_usdt", "eth", "usdt"),
         spot(ExchangeId::Kraken, "btc_usdt_b", "btc", "usdt"),
-    ]);
+    ];
+    let indexed = IndexedInstruments::new(defs.clone());
     let ex_ids: Vec<ExchangeId> = indexed.exchanges().iter().map(|k| k.value).collect();
     assert_eq!(ex_ids, EXCHANGES.to_vec(), "exchange index order");
     let inst_ex: Vec<usize> = indexed.instruments().iter().map(|k| k.value.exchange.key.index()).collect();
-    let inst_und: Vec<Underlying<AssetIndex>> = indexed.instruments().iter().map(|k| k.value.underlying).collect();
+    // the underlying of instrument i as its DEFINITION states it: the exchange's own base / quote asset, looked up by (exchange, name) - not read back
+    // from the built instrument (a builder that resolves a shared asset name to another exchange's entry must not go unnoticed)
+    let inst_und: Vec<Underlying<AssetIndex>> = indexed.instruments().iter().map(|k| {
+        let def = defs.iter().find(|d| d.exchange == k.value.exchange.value && d.name_internal == k.value.name_internal).expect("definition of an indexed instrument");
+        let ix = |a: &Asset| indexed.find_asset_index(def.exchange, &a.name_internal).expect("asset of a definition is indexed");
+        Underlying::new(ix(&def.underlying.base), ix(&def.underlying.quote))
+    }).collect();
     let mut ex_insts = vec![vec![]; ex_ids.len()];
     for (i, x) in inst_ex.iter().enumerate() { ex_insts[*x].push(i); }
     let mut ex_assets = vec![vec![]; ex_ids.len()];
